@@ -38,6 +38,9 @@ def check(ctx, F):
     _FN["F"] = F
     check_flow(ctx, F)
     check_pin_owner(ctx, F)
+    from . import C09
+    if any(bb.get("cls") == "R_" and bb["name"] == "lastTransitionTo" for bb in F.bodies.values()):
+        C09.check_pin_index(ctx, F, "C14.flow")
     check_ctor(ctx, F)
     check_layout(ctx, F)
     sub = _NameKind(ctx)
